@@ -277,6 +277,116 @@ def noise_helpers(ctx, mech_mod, rng):
                 ctx.violation("noise helpers: " + "; ".join(bad), {"bounded": bounded, "s": s, "eps": eps, "delta": delta}, {"kind": "noise"})
 
 
+PF_CFG = ("CONSTANTS\n  MaxN = %d\n  QMax = 2\n  Coef = %d\nSPECIFICATION Spec\nINVARIANT AlwaysReturns\nINVARIANT LawNormalised\n"
+          "INVARIANT PrivacyBound\nINVARIANT NoWorseThanEM\nINVARIANT PathBelowLaw\nINVARIANT Emit\nCHECK_DEADLOCK FALSE\n")
+GEM_CFG = ("CONSTANTS\n  MaxN = %d\n  QMax = 3\n  DMax = 2\n  Ts <- MCTs\nSPECIFICATION Spec\nINVARIANT KeepsUndominated\n"
+           "INVARIANT ParetoSufficient\nINVARIANT NonPositive\nINVARIANT SensitivityOne\nCHECK_DEADLOCK FALSE\n")
+
+
+def beyond_c20(ctx, mech_mod, rng, thorough):
+    """permute_and_flip and the generalised exponential mechanism: not part of C20's statement (another law by design / a score
+    transformation in front of the exponential mechanism), specified in PermuteFlip.tla and GenEM.tla and bound to the code in the
+    same two directions. A disagreement here is reported as a deviation from those models, never as a violation of C20."""
+    import os
+    from fractions import Fraction
+    n = 4 if thorough else 3
+    r = ctx.tlc("dp/PermuteFlip.tla", PF_CFG % (n, 1), name="PermuteFlip", workers=8, timeout=7200)
+    if r.violated:
+        ctx.deviation("design-level: %s fails in PermuteFlip.tla" % r.violated, {"tlc": r.trace_text()})
+    rn = ctx.tlc("dp/PermuteFlip.tla", PF_CFG % (2, 2), name="PermuteFlip_negative_control", workers=2, expect_violation=True)
+    if rn.violated != "PrivacyBound":
+        raise MachineryError("negative control: permute-and-flip without the factor 1/2 must violate PrivacyBound (got %r)" % (rn.violated,))
+    M = mech_mod.Mechanism(1.0, 0.0, False)
+    emits = r.emits
+    rng.shuffle(emits)
+    stats = {"pf_paths": 0, "pf_bad": 0, "gem_cases": 0, "gem_bad": 0}
+    orig_perm, orig_rand = np.random.permutation, np.random.rand
+    for e in emits[: (6000 if thorough else 600)]:
+        q, path, ret = e["q"], e["path"], e["ret"]
+        k = e["k"]
+        eps, sens = rng.choice([0.1, 1.0, 3.0]), rng.choice([1.0, 2.0, 0.5])
+        shift = rng.choice([0.0, 7.0, -1e5])
+        qual = np.array(q, dtype=float) * (2 * sens * LN2 / eps) + shift
+        visited = [h["i"] - 1 for h in path]
+        perm = visited + [j for j in range(len(q)) if j not in visited]
+        us = []
+        for h in path:
+            pk = 2.0 ** k[h["i"] - 1]
+            if h["acc"]:
+                us.append(pk * (1 - 1e-9) if pk < 1 else 1.0 - 2.0 ** -53)
+            else:
+                us.append(pk * (1 + 1e-9))
+        feed = list(us)
+        calls = {"perm": 0}
+        def fake_perm(m, perm=perm, calls=calls):
+            calls["perm"] += 1
+            return np.array(perm[:m] if not isinstance(m, np.ndarray) else perm)
+        def fake_rand(*a, feed=feed):
+            if not feed:
+                raise IndexError("more coins than the model's path")
+            return feed.pop(0)
+        np.random.permutation, np.random.rand = fake_perm, fake_rand
+        try:
+            got = M.permute_and_flip(qual.copy(), eps, sens)
+            bad = None
+            if got is None or int(got) != ret - 1:
+                bad = "returned %r, PermuteFlip.tla returns %d" % (got, ret - 1)
+            elif feed:
+                bad = "used %d coins, the model's path has %d" % (len(us) - len(feed), len(us))
+        except Exception as ex:
+            bad = "raised %r" % ex
+        finally:
+            np.random.permutation, np.random.rand = orig_perm, orig_rand
+        stats["pf_paths"] += 1
+        ctx.case(json.dumps(["permute_and_flip", q, path, eps, sens, shift]), nontrivial=len(q) >= 2)
+        if bad:
+            stats["pf_bad"] += 1
+            ctx.deviation("permute_and_flip is not a behaviour of PermuteFlip.tla: " + bad,
+                          {"q": q, "path": path, "eps": eps, "sensitivity": sens, "shift": shift})
+    # ---- generalised exponential mechanism
+    mc = os.path.join(ctx.work, "MC_GenEM.tla")
+    with open(mc, "w") as f:
+        f.write("---- MODULE MC_GenEM ----\nEXTENDS GenEM\nMCTs == {0, 1, 2}\n====\n")
+    rg = ctx.tlc(mc, GEM_CFG % (4 if thorough else 3), name="GenEM", workers=8, extra_modules=("dp",), timeout=7200)
+    if rg.violated:
+        ctx.deviation("design-level: %s fails in GenEM.tla" % rg.violated, {"tlc": rg.trace_text()})
+    if not any(len(e["eff"]) < len(e["q"]) for e in rg.emits):
+        raise MachineryError("GenEM.tla never dropped a dominated candidate (ParetoSufficient would be vacuous)")
+    ge = rg.emits
+    rng.shuffle(ge)
+    for e in ge[: (4000 if thorough else 400)]:
+        q, d, t = np.array(e["q"], dtype=float), np.array(e["d"], dtype=float), float(e["t"])
+        want = np.array([Fraction(a, b) for a, b in e["s"]], dtype=float)
+        eps = rng.choice([0.5, 1.0, 4.0])
+        bad = []
+        try:
+            got = np.asarray(mech_mod.generalized_em_scores(q.copy(), d.copy(), t), dtype=float)
+            if got.shape != want.shape or not np.allclose(got, want, rtol=1e-12, atol=1e-12):
+                bad.append("generalized_em_scores = %s, GenEM.tla %s" % (got.tolist(), want.tolist()))
+            eff = set(int(x) + 1 for x in mech_mod.pareto_efficient(np.vstack([-q, d]).T))
+            if eff != set(e["eff"]):
+                bad.append("pareto_efficient keeps %s, the model's loop keeps %s" % (sorted(eff), sorted(e["eff"])))
+            z = 0.5 * eps * want
+            pw = np.exp(z - z.max()); pw /= pw.sum()
+            cap = Capture()
+            Mc = mech_mod.Mechanism(1.0, 0.0, False, prng=cap)
+            Mc.generalized_exponential_mechanism(q.copy(), d.copy(), eps, t=t)
+            keys = ["c%d" % j for j in range(len(q))]
+            Mc.generalized_exponential_mechanism({k_: float(v) for k_, v in zip(keys, q)}, {k_: float(v) for k_, v in zip(keys, d)}, eps, t=t)
+            ps = [c[4] for c in cap.calls if c[0] == "choice" and c[4] is not None]
+            if len(ps) != 2 or any(p_.shape != pw.shape or not np.allclose(p_, pw, rtol=0, atol=1e-12) for p_ in ps):
+                bad.append("generalized_exponential_mechanism draws with p = %s, exponential mechanism on the model's scores gives %s" % (
+                    [p_.tolist() for p_ in ps], pw.tolist()))
+        except Exception as ex:
+            bad.append("raised %r" % ex)
+        stats["gem_cases"] += 1
+        ctx.case(json.dumps(["gem", e["q"], e["d"], e["t"], eps]), nontrivial=len(q) >= 2)
+        if bad:
+            stats["gem_bad"] += 1
+            ctx.deviation("generalised exponential mechanism differs from GenEM.tla: " + "; ".join(bad[:2]), {"q": e["q"], "d": e["d"], "t": e["t"], "eps": eps})
+    ctx.extra["beyond_c20"] = stats
+
+
 def run(ctx, canary=False):
     rng = random.Random(ctx.seed)
     thorough = ctx.tier == "thorough"
@@ -303,10 +413,11 @@ def run(ctx, canary=False):
         objects(mech_mod, aim)
         extremes(ctx, mech_mod, mst, ada, mwem)
         noise_helpers(ctx, mech_mod, rng)
+        beyond_c20(ctx, mech_mod, rng, thorough)
     if emits:
         ctx.sample({"lattice case": emits[0]})
     ctx.assumptions += ["autodp's calibrator is replaced by a stand-in: only linearity in the sensitivity and the doubling under bounded "
-                        "adjacency are checked for gaussian_noise_scale", "permute_and_flip / generalized_exponential_mechanism not covered",
+                        "adjacency are checked for gaussian_noise_scale", "permute_and_flip / generalized_exponential_mechanism are outside C20's statement: modelled (PermuteFlip.tla, GenEM.tla) and replayed, disagreements are reported as model deviations",
                         "numpy's generators are trusted"]
 
 
